@@ -235,6 +235,8 @@ impl<K: CacheKey + 'static> MemoryCache<K> {
         let to_evict = candidates.into_iter().take(count);
 
         for (key, _) in to_evict {
+            #[cfg(feature = "verif-hooks")]
+            crate::verif_hooks::sched_point("memory.evict_lru.before_remove");
             if let Some((_, entry)) = self.storage.remove(&key) {
                 self.entry_count.fetch_sub(1, Ordering::Relaxed);
                 self.memory_usage
@@ -258,6 +260,8 @@ impl<K: CacheKey + 'static> MemoryCache<K> {
         let to_evict = candidates.into_iter().take(count);
 
         for (key, _) in to_evict {
+            #[cfg(feature = "verif-hooks")]
+            crate::verif_hooks::sched_point("memory.evict_lfu.before_remove");
             if let Some((_, entry)) = self.storage.remove(&key) {
                 self.entry_count.fetch_sub(1, Ordering::Relaxed);
                 self.memory_usage
@@ -281,6 +285,8 @@ impl<K: CacheKey + 'static> MemoryCache<K> {
         let to_evict = candidates.into_iter().take(count);
 
         for (key, _) in to_evict {
+            #[cfg(feature = "verif-hooks")]
+            crate::verif_hooks::sched_point("memory.evict_fifo.before_remove");
             if let Some((_, entry)) = self.storage.remove(&key) {
                 self.entry_count.fetch_sub(1, Ordering::Relaxed);
                 self.memory_usage
@@ -304,6 +310,8 @@ impl<K: CacheKey + 'static> MemoryCache<K> {
         let to_evict = keys.into_iter().take(count);
 
         for key in to_evict {
+            #[cfg(feature = "verif-hooks")]
+            crate::verif_hooks::sched_point("memory.evict_random.before_remove");
             if let Some((_, entry)) = self.storage.remove(&key) {
                 self.entry_count.fetch_sub(1, Ordering::Relaxed);
                 self.memory_usage
@@ -328,6 +336,8 @@ impl<K: CacheKey + 'static> MemoryCache<K> {
             .collect();
 
         for key in expired_keys {
+            #[cfg(feature = "verif-hooks")]
+            crate::verif_hooks::sched_point("memory.evict_expired.before_remove");
             if let Some((_, entry)) = self.storage.remove(&key) {
                 self.entry_count.fetch_sub(1, Ordering::Relaxed);
                 self.memory_usage
@@ -376,9 +386,13 @@ impl<K: CacheKey + 'static> AsyncCache<K> for MemoryCache<K> {
                 // Need to collect info and drop the guard before removing
                 let size_bytes = entry.size_bytes;
                 drop(entry); // Drop the guard before attempting to remove
+                #[cfg(feature = "verif-hooks")]
+                crate::verif_hooks::sched_point("memory.get.expired.before_remove");
 
                 // Remove expired entry
                 if self.storage.remove(key).is_some() {
+                    #[cfg(feature = "verif-hooks")]
+                    crate::verif_hooks::sched_point("memory.get.expired.after_remove");
                     self.entry_count.fetch_sub(1, Ordering::Relaxed);
                     self.memory_usage
                         .fetch_sub(size_bytes as u64, Ordering::Relaxed);
@@ -411,14 +425,20 @@ impl<K: CacheKey + 'static> AsyncCache<K> for MemoryCache<K> {
         let size_bytes = value.len();
 
         // Check capacity and evict if necessary
+        #[cfg(feature = "verif-hooks")]
+        crate::verif_hooks::sched_point("memory.put.before_evict_check");
         if self.needs_eviction() {
             self.perform_eviction();
         }
 
         let entry = Arc::new(MemoryCacheEntryInner::new(value, size_bytes, Some(ttl)));
+        #[cfg(feature = "verif-hooks")]
+        crate::verif_hooks::sched_point("memory.put.before_insert");
 
         // Insert or update entry
         if let Some(old_entry) = self.storage.insert(key, entry) {
+            #[cfg(feature = "verif-hooks")]
+            crate::verif_hooks::sched_point("memory.put.replaced.before_counters");
             // Updating existing entry - adjust memory usage
             let old_size = old_entry.size_bytes as u64;
             let new_size = size_bytes as u64;
@@ -432,6 +452,8 @@ impl<K: CacheKey + 'static> AsyncCache<K> for MemoryCache<K> {
             }
         } else {
             // New entry
+            #[cfg(feature = "verif-hooks")]
+            crate::verif_hooks::sched_point("memory.put.new.before_counters");
             self.entry_count.fetch_add(1, Ordering::Relaxed);
             self.memory_usage
                 .fetch_add(size_bytes as u64, Ordering::Relaxed);
@@ -447,9 +469,13 @@ impl<K: CacheKey + 'static> AsyncCache<K> for MemoryCache<K> {
                 // Need to collect info and drop the guard before removing
                 let size_bytes = entry.size_bytes;
                 drop(entry); // Drop the guard before attempting to remove
+                #[cfg(feature = "verif-hooks")]
+                crate::verif_hooks::sched_point("memory.contains.expired.before_remove");
 
                 // Clean up expired entry
                 if self.storage.remove(key).is_some() {
+                    #[cfg(feature = "verif-hooks")]
+                    crate::verif_hooks::sched_point("memory.contains.expired.after_remove");
                     self.entry_count.fetch_sub(1, Ordering::Relaxed);
                     self.memory_usage
                         .fetch_sub(size_bytes as u64, Ordering::Relaxed);
@@ -465,6 +491,8 @@ impl<K: CacheKey + 'static> AsyncCache<K> for MemoryCache<K> {
 
     async fn remove(&self, key: &K) -> CacheResult<bool> {
         if let Some((_, entry)) = self.storage.remove(key) {
+            #[cfg(feature = "verif-hooks")]
+            crate::verif_hooks::sched_point("memory.remove.before_counters");
             self.entry_count.fetch_sub(1, Ordering::Relaxed);
             self.memory_usage
                 .fetch_sub(entry.size_bytes as u64, Ordering::Relaxed);
@@ -476,6 +504,8 @@ impl<K: CacheKey + 'static> AsyncCache<K> for MemoryCache<K> {
 
     async fn clear(&self) -> CacheResult<()> {
         self.storage.clear();
+        #[cfg(feature = "verif-hooks")]
+        crate::verif_hooks::sched_point("memory.clear.before_counters");
         self.entry_count.store(0, Ordering::Relaxed);
         self.memory_usage.store(0, Ordering::Relaxed);
         self.metrics.reset();
